@@ -14,7 +14,8 @@ def make(mod, pid, units, streams_quick, streams_thorough, search_streams=None):
         if n:
             parts += core.pmap_chunks(cluster.run_cases, seed, n, (tier, "corpus"), jobs=1)
         for stream, count in streams:
-            parts += core.pmap_chunks(cluster.run_cases, seed, int(count * scale), (tier, stream))
+            fn = cluster.run_ns_cases if stream == "ns" else cluster.run_cases
+            parts += core.pmap_chunks(fn, seed, int(count * scale), (tier, stream))
         st = core.merge_all(parts)
         st.disagreements = [d for d in st.disagreements if d["unit"] in units]
         st.failures = [f for f in st.failures if f["prop"] == pid]
